@@ -1,11 +1,13 @@
 package main
 
 import (
+	"context"
 	"encoding/json"
 	"fmt"
 	"sort"
 
 	pipeline "github.com/buildkite/go-pipeline"
+	"github.com/buildkite/go-pipeline/signature"
 	"verifharness/sx"
 )
 
@@ -186,6 +188,20 @@ func init() {
 				od, _ := docSexp(otext)
 				other = sx.L(od)
 			}
+			// a signature made with the REAL key over a field list that lacks a mandatory field (an old or careless
+			// signer): cryptographically valid, and still to be rejected - for the step as signed and for a tampered one
+			for _, drop := range []string{"matrix", "command", "env", "plugins", "repository_url", "matrix"} {
+				rf := reducedFielder{&signature.CommandStepWithInvariants{CommandStep: *cs, RepositoryURL: base.repo}, drop}
+				rsg, rerr := signature.Sign(context.Background(), key.priv, rf, signature.WithEnv(base.penv))
+				if rerr != nil {
+					continue
+				}
+				if verr := verifyStep(key, rsg, cs, base.repo, base.penv); verr == nil {
+					oracleFail("C01", "verdict-resigned-without-mandatory-field", sx.L(sx.A(text), sx.A(drop)), fmt.Sprintf("a signature over %v (no %q) made with the right key verifies", rsg.SignedFields, drop))
+					break
+				}
+				stat("C01", "mut-resigned-without-mandatory-field")
+			}
 			for _, m := range muts {
 				mcs, mtext, err := stepFromDoc(m.c.doc)
 				if err != nil {
@@ -241,4 +257,16 @@ func init() {
 			}
 		}
 	}
+}
+
+// reducedFielder signs like the wrapped step but leaves one field out of the signed set
+type reducedFielder struct {
+	*signature.CommandStepWithInvariants
+	drop string
+}
+
+func (r reducedFielder) SignedFields() (map[string]any, error) {
+	m, err := r.CommandStepWithInvariants.SignedFields()
+	delete(m, r.drop)
+	return m, err
 }
